@@ -19,6 +19,22 @@ ERR = {0x202: 'REJECTED', 0x004: 'REJECTED_RESUME', 0x201: 'APPLICATION_ERROR', 
        0x001: 'INVALID_SETUP', 0x101: 'CONNECTION_ERROR', 0x102: 'CONNECTION_CLOSE', 0x203: 'CANCELED', 0x204: 'INVALID'}
 
 
+def _bodies(wire, ft, sid, frag):
+    """the frame as it goes on the wire: whole, as two fragments (the first with the follows flag, the second a PAYLOAD), or its first
+    fragment only"""
+    if frag == 'whole':
+        return [_body(wire, ft, sid)]
+    if ft.startswith('PAYLOAD'):
+        k = ft.split('_')[1]
+        first = wire.encode('PAYLOAD', sid=sid, flags=wire.F_NEXT | wire.F_FOLLOWS, d=b'ju')
+        last = wire.encode('PAYLOAD', sid=sid, flags=wire.F_NEXT | (wire.F_COMPLETE if 'C' in k else 0), d=b'nk')
+    else:
+        n = 3 if ft in ('REQUEST_STREAM', 'REQUEST_CHANNEL') else None
+        first = wire.encode(ft, sid=sid, flags=wire.F_FOLLOWS, n=n, d=b'du')
+        last = wire.encode('PAYLOAD', sid=sid, flags=wire.F_NEXT, d=b'p')
+    return [first] if frag == 'first' else [first, last]
+
+
 def _body(wire, ft, sid):
     if ft.startswith('PAYLOAD'):
         k = ft.split('_')[1]
@@ -55,7 +71,7 @@ def run_row(E, case, mode='tcp', chunk=None):
     """returns the observation dict for one row on endpoint E"""
     from ..harness import prog, wire
     P = 's' if E == 'c' else 'c'
-    X, ft, sm = case['X'], case['ft'], case['sid']
+    X, ft, sm, frag = case['X'], case['ft'], case['sid'], case.get('frag', 'whole')
     ex = prog.Exec({'mode': mode, 'hostile': True, 'read_buffer': 1024})
     w = ex.w
     steps = []
@@ -93,9 +109,9 @@ def run_row(E, case, mode='tcp', chunk=None):
         iid = ex.refs[1]
         sid = [e['sid'] for e in w.rec.events if e['ev'] == 'enq' and e['ft'].startswith('REQUEST_') and e['pid'] == iid][0]
     n0 = len(w.rec.events)
-    body = _body(wire, ft, sid)
     w.rec.log(E, 'inject', kind='dispatch', sid=sid, x=0, n=1)
-    w.dirs[P].inject((len(body).to_bytes(3, 'big') + body) if mode == 'tcp' else body)
+    for body in _bodies(wire, ft, sid, frag):
+        w.dirs[P].inject((len(body).to_bytes(3, 'big') + body) if mode == 'tcp' else body)
     status = 'ok'
     try:
         ex.do(['pump'] if chunk is None else ['pump', chunk])
@@ -117,9 +133,10 @@ def run_row(E, case, mode='tcp', chunk=None):
             told.append(k)
     try:
         reg = sid in w.eps[E]._stream_control._streams
+        partial = sid in w.eps[E]._frame_fragment_cache._frames_by_stream_id
     except Exception:
-        reg = None
-    obs = {'told': sorted(told), 'out': sorted(out), 'reg': reg, 'status': status, 'sid': sid}
+        reg = partial = None
+    obs = {'told': sorted(told), 'out': sorted(out), 'reg': reg, 'status': status, 'sid': sid, 'partial': partial}
     # afterwards: the bystander goes on, and a fresh request is served in both directions
     n1 = len(w.rec.events)
     try:
@@ -148,7 +165,8 @@ def judge(prop, E, case, row, obs):
     """-> list of (clause, detail); DRIFT entries have clause 'DRIFT'"""
     bad = []
     X, ft, sm = case['X'], case['ft'], case['sid']
-    where = 'endpoint %s, stream state %s, %s on %s' % (E, X, ft, {'zero': 'stream 0', 'peer': "an id of the peer's parity", 'own': "an id of its own parity"}[sm]
+    frag = case.get('frag', 'whole')
+    where = 'endpoint %s, stream state %s, %s%s on %s' % (E, X, ft, {'whole': '', 'two': ' (in two fragments)', 'first': ' (first fragment only)'}[frag], {'zero': 'stream 0', 'peer': "an id of the peer's parity", 'own': "an id of its own parity"}[sm]
                                                         if X == 'none' or sm == 'zero' else 'the live stream')
     r = row['r']
     exp_told, exp_out, exp_reg = sorted(r['told']), sorted(r['out']), r['reg']
@@ -163,13 +181,20 @@ def judge(prop, E, case, row, obs):
     if len(served) < 2 or any(served[-2:]):
         bad.append(('C12.probe_served', '%s: probe requests afterwards (one in each direction) ended as %r' % (where, obs['probe_futures'])))
     same = (obs['told'] == exp_told and obs['out'] == exp_out and obs['reg'] == exp_reg)
-    dup = ft.startswith('REQUEST_') and ft != 'REQUEST_N' and X != 'none' and sm != 'zero'
+    if frag == 'first' and (obs['told'] or obs['out']):
+        bad.append(('C03.delivered_only_at_last_fragment', '%s: application told %r, queued %r before the frame was complete' % (where, obs['told'], obs['out'])))
+        return bad
+    if frag == 'two' and obs['partial']:
+        bad.append(('C10.dispatch_partial_frame_released', '%s: the reassembly cache still holds a partial frame for the stream after its last fragment' % where))
+    dup = ft.startswith('REQUEST_') and ft != 'REQUEST_N' and X != 'none' and sm != 'zero' and frag != 'first'
     if dup:
         if 'ERROR:sid:REJECTED' not in obs['out']:
             bad.append(('C13.incoming_duplicate_rejected', '%s: queued %r' % (where, obs['out'])))
         if obs['reg'] is not True or 'request' in obs['told'] or 'pub_subscribe' in obs['told']:
             bad.append(('C13.existing_stream_not_replaced', '%s: application told %r, stream registered afterwards: %s' % (where, obs['told'], obs['reg'])))
     if same:
+        if frag == 'first' and not obs['partial']:
+            bad.append(('DRIFT', '%s: the first fragment is not waiting in the reassembly cache' % where))
         return bad
     detail = '%s: application told %r (table: %r), queued %r (table: %r), stream registered %s (table: %s)' % (
         where, obs['told'], exp_told, obs['out'], exp_out, obs['reg'], exp_reg)
@@ -232,7 +257,8 @@ def check(v, prop, only_duplicates=False):
     notes = []
     for row in rows:
         case = row['c']
-        dup = case['ft'].startswith('REQUEST_') and case['ft'] != 'REQUEST_N' and case['X'] != 'none' and case['sid'] != 'zero'
+        dup = case['ft'].startswith('REQUEST_') and case['ft'] != 'REQUEST_N' and case['X'] != 'none' and case['sid'] != 'zero' \
+            and case.get('frag', 'whole') != 'first'
         if only_duplicates and not dup:
             continue
         for E in ('c', 's'):
